@@ -553,6 +553,7 @@ func c10Replay(path []c10Op, op c10Op) (class, detail, key string, enabledNext [
 
 func C10(args []string) {
 	r := core.Begin("C10", "model_checking", args)
+	r.WatchProgress(watchPeriod()) // the code under test runs in this process: a call that never returns must end the check
 	if p := replayArg(args); p != "" {
 		var f struct {
 			Case c10Case `json:"case"`
